@@ -184,11 +184,20 @@ Qed.
 Definition all_chars (l : list tok) : Prop := Forall (fun x => is_chars x = true) l.
 (* the queue of process_to_completion only ever holds the pieces of a split character token *)
 Definition queue_ok (t : tok) (more : list tok) : Prop := more = [] \/ (is_chars t = true /\ all_chars more).
-Definition LI (s : st) (t : tok) (more : list tok) : Prop :=
-  TInv s /\ tok_ok s t /\ scalar_tok t /\ queue_ok t more.
+(* [t0] = the token process_to_completion was called with: the loop only ever sees it or pieces of split text *)
+Definition LI (t0 : tok) (s : st) (t : tok) (more : list tok) : Prop :=
+  TInv s /\ tok_ok s t /\ scalar_tok t /\ queue_ok t more /\ (t = t0 \/ is_chars t = true).
 
-Definition iter_post (r : sink_result + tok * list tok) (s' : st) : Prop :=
-  match r with inl _ => TInv s' | inr (t', m') => LI s' t' m' end.
+(* what an EncodingIndicator result means (C19) *)
+Definition enc_res (t0 : tok) (res : sink_result) (s' : st) : Prop :=
+  forall l, res = SEncoding l -> enc_from t0 l /\ enc_tail t0 s' l.
+Definition res_post (t0 : tok) (res : sink_result) (s' : st) : Prop := TInv s' /\ enc_res t0 res s'.
+
+Definition iter_post (t0 : tok) (r : sink_result + tok * list tok) (s' : st) : Prop :=
+  match r with inl res => res_post t0 res s' | inr (t', m') => LI t0 s' t' m' end.
+
+Lemma res_post_plain t0 res s' : TInv s' -> match res with SEncoding _ => False | _ => True end -> res_post t0 res s'.
+Proof. intros I H. split; [exact I|]. intros l E. subst res. contradiction. Qed.
 
 Lemma chars_tok_ok s t : is_chars t = true -> tok_ok s t /\ scalar_tok t.
 Proof. destruct t; simpl; intro H; try discriminate. split; [intros _; reflexivity | exact Logic.I]. Qed.
@@ -202,17 +211,18 @@ Proof.
   intros [-> | [C _]] CO R; [reflexivity|]. exfalso. specialize (CO C). destruct r; try contradiction.
 Qed.
 
-Lemma iter_next s more t : TInv s -> queue_ok t more ->
-  wp (match more with [] => ret (inl SContinue) | t' :: m' => ret (inr (t', m')) end) iter_post s.
+Lemma iter_next t0 s more t : TInv s -> queue_ok t more ->
+  wp (match more with [] => ret (inl SContinue) | t' :: m' => ret (inr (t', m')) end) (iter_post t0) s.
 Proof.
-  intros I Q. destruct more as [|t' m']; rewrite wp_ret; [exact I|].
+  intros I Q. destruct more as [|t' m']; rewrite wp_ret; [apply res_post_plain; [exact I | exact Logic.I]|].
   destruct Q as [Q | [_ Q]]; [discriminate|]. inversion Q as [|x l Ct Cm]; subst.
-  destruct (chars_tok_ok s t' Ct) as [A B]. split; [exact I | split; [exact A | split; [exact B | right; split; assumption]]].
+  destruct (chars_tok_ok s t' Ct) as [A B].
+  split; [exact I | split; [exact A | split; [exact B | split; [right; split; assumption | right; exact Ct]]]].
 Qed.
 
-Lemma ptc_iter_ok s t more : LI s t more -> wps (ptc_iter t more) iter_post s.
+Lemma ptc_iter_ok t0 s t more : LI t0 s t more -> wps (ptc_iter t more) (iter_post t0) s.
 Proof.
-  intros (I & TO & Sc & Q). unfold ptc_iter. cbv zeta.
+  intros (I & TO & Sc & Q & T0). unfold ptc_iter. cbv zeta.
   apply wps_bind. apply wps_shape_check. intro Sh.
   apply wps_bind_wp. apply wp_is_foreign_full; [exact I|]. intros foreign Hf.
   apply wps_bind.
@@ -226,16 +236,16 @@ Proof.
   destruct r as [| |buf|m t'|t'|node| |k|e]; simpl in TR, ST.
   - (* Done *)
     rewrite wp_bind. destruct (is_self_closing_start t).
-    + rewrite wp_bind. apply wp_probe. rewrite wp_parse_error. apply (iter_next _ more t); [do 2 (apply Io; [reflexivity|]); exact TR | exact Q].
-    + rewrite wp_ret. apply (iter_next _ more t); [exact TR | exact Q].
-  - apply (iter_next _ more t); [exact TR | exact Q].
+    + rewrite wp_bind. apply wp_probe. rewrite wp_parse_error. apply (iter_next t0 _ more t); [do 2 (apply Io; [reflexivity|]); exact TR | exact Q].
+    + rewrite wp_ret. apply (iter_next t0 _ more t); [exact TR | exact Q].
+  - apply (iter_next t0 _ more t); [exact TR | exact Q].
   - (* SplitWhitespace *)
-    destruct (pop_front_char_run buf) as [[[first ws] rest]|]; [|rewrite wp_ret; exact TR].
+    destruct (pop_front_char_run buf) as [[[first ws] rest]|]; [|rewrite wp_ret; apply res_post_plain; [exact TR | exact Logic.I]].
     rewrite wp_bind, wp_when.
-    assert (Fin : forall s2, TInv s2 -> iter_post
+    assert (Fin : forall s2, TInv s2 -> iter_post t0
               (inr (KChars (if ws then Whitespace else NotWhitespace) first,
                     match rest with [] => more | _ :: _ => more ++ [KChars NotSplit rest] end)) s2).
-    { intros s2 I2. split; [exact I2 | split; [intros _; reflexivity | split; [exact Logic.I | right; split; [reflexivity|]]]].
+    { intros s2 I2. split; [exact I2 | split; [intros _; reflexivity | split; [exact Logic.I | split; [right; split; [reflexivity|] | right; reflexivity]]]].
       pose proof (queue_all_chars _ _ Q) as A. destruct rest; [exact A|].
       apply Forall_app. split; [exact A | constructor; [reflexivity | constructor]]. }
     destruct (negb (is_nil rest)).
@@ -243,15 +253,17 @@ Proof.
     + rewrite wp_ret. apply Fin. exact TR.
   - (* Reprocess *)
     destruct TR as [TR NT]. subst t'. unfold set_mode_m. rewrite wp_bind, wp_modify, wp_ret.
-    split; [exact TR | split; [intro X; contradiction | split; [exact Sc | exact Q]]].
+    split; [exact TR | split; [intro X; contradiction | split; [exact Sc | split; [exact Q | exact T0]]]].
   - destruct TR.
-  - rewrite (queue_nil_of_nonchars t more _ Q CO Logic.I). rewrite wp_bind, wp_assert. split; [reflexivity|]. rewrite wp_ret. exact TR.
-  - rewrite (queue_nil_of_nonchars t more _ Q CO Logic.I). rewrite wp_bind, wp_assert. split; [reflexivity|]. rewrite wp_ret. exact TR.
-  - rewrite (queue_nil_of_nonchars t more _ Q CO Logic.I). rewrite wp_bind, wp_assert. split; [reflexivity|]. rewrite wp_ret. exact TR.
-  - rewrite wp_ret. exact TR.
+  - rewrite (queue_nil_of_nonchars t more _ Q CO Logic.I). rewrite wp_bind, wp_assert. split; [reflexivity|]. rewrite wp_ret. apply res_post_plain; [exact TR | exact Logic.I].
+  - rewrite (queue_nil_of_nonchars t more _ Q CO Logic.I). rewrite wp_bind, wp_assert. split; [reflexivity|]. rewrite wp_ret. apply res_post_plain; [exact TR | exact Logic.I].
+  - rewrite (queue_nil_of_nonchars t more _ Q CO Logic.I). rewrite wp_bind, wp_assert. split; [reflexivity|]. rewrite wp_ret. apply res_post_plain; [exact TR | exact Logic.I].
+  - (* the EncodingIndicator: the token is the one the loop started with *)
+    rewrite wp_ret. destruct TR as [TR Et]. split; [exact TR|]. intros l El. injection El as <-.
+    destruct T0 as [<- | C]; [split; [exact ST | exact Et]|]. destruct ST as (g & -> & _). discriminate C.
 Qed.
 
-Lemma ptc_loop_ok : forall fuel t more s, LI s t more -> wps (ptc_loop fuel t more) (fun _ s' => TInv s') s.
+Lemma ptc_loop_ok t0 : forall fuel t more s, LI t0 s t more -> wps (ptc_loop fuel t more) (res_post t0) s.
 Proof.
   induction fuel as [|f IH]; intros t more s H; cbn [ptc_loop].
   - exact Logic.I.
@@ -262,10 +274,10 @@ Proof.
 Qed.
 
 Lemma process_to_completion_ok s t : TInv s -> tok_ok s t -> scalar_tok t ->
-  wps (process_to_completion t) (fun _ s' => TInv s') s.
+  wps (process_to_completion t) (res_post t) s.
 Proof.
   intros I TO Sc. unfold process_to_completion. apply wps_bind_wp. rewrite wp_get.
-  apply ptc_loop_ok. split; [exact I | split; [exact TO | split; [exact Sc | left; reflexivity]]].
+  apply ptc_loop_ok. split; [exact I | split; [exact TO | split; [exact Sc | split; [left; reflexivity | left; reflexivity]]]].
 Qed.
 
 (* ---------- process_token ---------- *)
@@ -377,14 +389,96 @@ Proof.
   - apply Rest; [apply core_eq_refl | reflexivity].
 Qed.
 
+(* which tree-builder token a tokenizer token becomes *)
+Definition tag_of_token (k : tagkind) (name : str) (sc : bool) (attrs : list (str * str)) (dup : bool) : tag :=
+  {| tg_kind := k ; tg_name := name ; tg_self := sc ; tg_attrs := conv_attrs attrs ; tg_dup := dup |}.
+Definition conv_rel (tk : token) (r : sink_result + tok) : Prop :=
+  match r with
+  | inl res => res = SContinue
+  | inr t => match tk with
+             | TTag k name sc attrs dup => t = KTag (tag_of_token k name sc attrs dup)
+             | _ => forall g, t <> KTag g
+             end
+  end.
+Lemma pt_prelude_conv s tk line : wp (pt_prelude tk line) (fun r _ => conv_rel tk r) s.
+Proof.
+  unfold pt_prelude. rewrite wp_bind, wp_when.
+  assert (Rest : forall s1, wp (s0 <- get ;;
+         modify (set_ignore_lf (match tk with TError => negb (dev_on s0 1) && ignore_lf s0 | _ => false end)) ;;
+         match tk with
+         | TError => parse_error ;; ret (inl SContinue)
+         | TDoctype name pub sys force_quirks =>
+           if mode_eqb (mode s0) Initial then
+             probe 46 ;;
+             let '(err, quirk) := doctype_error_and_quirks (negb (dev_on s0 8)) (negb (dev_on s0 13)) name pub sys force_quirks
+                                                           (o_iframe_srcdoc (opts s0)) in
+             when err parse_error ;;
+             when (negb (o_drop_doctype (opts s0)))
+                  (emit (OpAppendDoctype (or_empty name) (or_empty pub) (or_empty sys))) ;;
+             do_set_quirks quirk ;;
+             set_mode_m BeforeHtml ;;
+             ret (inl SContinue)
+           else probe 47 ;; parse_error ;; ret (inl SContinue)
+         | TTag k name self_closing attrs had_dup =>
+           ret (inr (KTag {| tg_kind := k ; tg_name := name ; tg_self := self_closing ; tg_attrs := conv_attrs attrs ;
+                             tg_dup := had_dup |}))
+         | TComment x => ret (inr (KComment x))
+         | TNull => ret (inr KNull)
+         | TEof => ret (inr KEof)
+         | TChars x =>
+           let x' := match x with c :: r => if ignore_lf s0 && N.eqb c 0x0A then r else x | [] => x end in
+           when (negb (Nat.eqb (length x') (length x))) (probe 45) ;;
+           match x' with
+           | [] => ret (inl SContinue)
+           | _ :: _ => ret (inr (KChars NotSplit x'))
+           end
+         end) (fun r _ => conv_rel tk r) s1).
+  { intro s1. rewrite wp_bind, wp_get, wp_bind, wp_modify.
+    destruct tk as [name pub sys fq|k name sc attrs dup|x|x| | |].
+    - destruct (mode_eqb (mode s1) Initial).
+      + rewrite wp_bind. apply wp_probe. destruct (doctype_error_and_quirks _ _ name pub sys fq _) as [err quirk].
+        unfold do_set_quirks, set_mode_m. rewrite wp_bind, wp_when.
+        destruct err; [rewrite wp_parse_error|]; rewrite wp_bind, wp_when;
+          (destruct (negb (o_drop_doctype (opts s1))); [rewrite wp_emit|]);
+          rewrite wp_bind, wp_bind, wp_modify, wp_emit, wp_bind, wp_modify, wp_ret; reflexivity.
+      + rewrite wp_bind. apply wp_probe. rewrite wp_bind, wp_parse_error, wp_ret. reflexivity.
+    - rewrite wp_ret. reflexivity.
+    - rewrite wp_ret. intros g X. discriminate X.
+    - cbv zeta. rewrite wp_bind, wp_when.
+      match goal with |- (if ?c then _ else _) => destruct c end; [apply wp_probe|];
+        (match goal with |- wp (match ?l with [] => _ | _ :: _ => _ end) _ _ => destruct l end; rewrite wp_ret;
+         [reflexivity | intros g X; discriminate X]).
+    - rewrite wp_ret. intros g X. discriminate X.
+    - rewrite wp_ret. intros g X. discriminate X.
+    - rewrite wp_bind, wp_parse_error, wp_ret. reflexivity. }
+  destruct (negb (N.eqb line 1)); [rewrite wp_emit|]; apply Rest.
+Qed.
+
+(* C19, soundness: an EncodingIndicator comes from a start tag of the charset / http-equiv arm of the "in head"
+   rules, with the label its attributes declare, after the element was created and inserted *)
+Definition token_enc (tk : token) (res : sink_result) (s' : st) : Prop :=
+  forall l, res = SEncoding l ->
+    exists k name sc attrs dup, tk = TTag k name sc attrs dup /\
+      enc_from (KTag (tag_of_token k name sc attrs dup)) l /\ enc_tail (KTag (tag_of_token k name sc attrs dup)) s' l.
+
+Theorem process_token_enc_ok s tk line : TInv s -> token_ok s tk -> scalar_token tk ->
+  wps (process_token tk line) (fun res s' => TInv s' /\ token_enc tk res s') s.
+Proof.
+  intros I TO Sc. unfold process_token. apply wps_bind_wp.
+  eapply wp_mono; [apply wp_conj; [apply pt_prelude_ok; assumption | apply pt_prelude_conv]|].
+  intros [res | t] s1 [[I1 P] Cv]; simpl in Cv.
+  - apply wps_ret. split; [exact I1|]. intros l El. rewrite Cv in El. discriminate El.
+  - destruct P as [TO1 Sc1]. eapply wps_mono; [apply process_to_completion_ok; assumption|].
+    intros res s' [I' En]. split; [exact I'|]. intros l El. destruct (En l El) as [Ef Et].
+    destruct tk as [name pub sys fq|k name sc attrs dup|x|x| | |];
+      try (destruct Ef as (g & Eg & _); exfalso; exact (Cv g Eg)).
+    exists k, name, sc, attrs, dup. subst t. split; [reflexivity | split; assumption].
+Qed.
+
 Theorem process_token_ok s tk line : TInv s -> token_ok s tk -> scalar_token tk ->
   wps (process_token tk line) (fun _ s' => TInv s') s.
 Proof.
-  intros I TO Sc. unfold process_token. apply wps_bind_wp.
-  eapply wp_mono; [apply pt_prelude_ok; assumption|].
-  intros [res | t] s1 [I1 P].
-  - apply wps_ret. exact I1.
-  - destruct P as [TO1 Sc1]. apply process_to_completion_ok; assumption.
+  intros I TO Sc. eapply wps_mono; [apply process_token_enc_ok; assumption|]. intros res s' [I' _]. exact I'.
 Qed.
 
 (* ---------- the initial state, whole runs ---------- *)
